@@ -3,7 +3,7 @@
    Unbounded in R, C, T, K, L (the property asks only for <= 6). *)
 From Coq Require Import Arith List.
 Import ListNotations.
-From MT Require Import Arith SweepModel MainModel Layout GenLayout GenCliIdx LayoutProofs.
+From MT Require Import Arith SweepModel MainModel Layout GenLayout GenCliIdx LayoutProofs LayoutShapeProofs.
 
 (* the C++ index expression of Tensor::get_index (regenerated from tensor.hpp on every run) is the documented one *)
 Theorem C18_cxx_get_index : forall R C T i j a, cxx_idx R C T i j a = a * R * C + j * R + i.
@@ -64,6 +64,34 @@ Theorem C18_writer : forall K L k q a,
   cxx_writer_idx_gen K L k q a = idx K K L k q a /\ cxx_writer_idx_ass K L k a = idx K 1 L k 0 a.
 Proof. intros. split; [exact (writer_gen_is_idx K L k q a)|exact (writer_ass_is_idx K L k a)]. Qed.
 Print Assumptions C18_writer.
+
+(* what a tensor reports about itself: the three dimensions it was made with, their product as its size; resize forgets the old shape
+   whatever it was (same element count included), and the layout afterwards is the one of the new dimensions *)
+Theorem C18_reported_shape : forall R C T,
+  (t_rows (t_make R C T) = R /\ t_cols (t_make R C T) = C /\ t_tubes (t_make R C T) = T /\ t_size (t_make R C T) = R * C * T) /\
+  (forall old, t_resize old R C T = t_make R C T) /\
+  (forall old i j a, t_idx (t_resize old R C T) i j a = idx R C T i j a).
+Proof. intros R C T. split; [exact (shape_make R C T)|]. split; [intro old; exact (shape_resize old R C T)|intros old i j a; exact (idx_after_resize old R C T i j a)]. Qed.
+Print Assumptions C18_reported_shape.
+
+(* the two-index accessors of the transposed view of an R x C matrix: (i,j) is the matrix's (j,i), flat position i*R + j *)
+Theorem C18_transposed_matrix : forall R C i j, idx_transposed R C 1 i j 0 = i * R + j.
+Proof. exact transposed_matrix. Qed.
+Print Assumptions C18_transposed_matrix.
+
+(* the initial-affinity reader of the front end writes to the layout's positions (its model, CliModel.write_layers, is stated on idx_gen / idx_ass) *)
+Theorem C18_reader_positions : forall K L k a,
+  idx_gen K L k k a = idx K K L k k a /\ idx_ass K L k a = idx K 1 L k 0 a /\
+  idx K K L k k a = a * K * K + k * K + k /\ idx K 1 L k 0 a = a * K + k.
+Proof. exact reader_positions. Qed.
+Print Assumptions C18_reader_positions.
+
+(* the C = 1 layout differs from a column-major L x K matrix exactly when there are at least two groups and two layers *)
+Theorem C18_assortative_layout_not_transposed :
+  (forall K L, 2 <= K -> 2 <= L -> exists k a, k < K /\ a < L /\ idx K 1 L k 0 a <> a + k * L) /\
+  (forall K L k a, k < K -> a < L -> (L = 1 \/ K = 1) -> idx K 1 L k 0 a = a + k * L).
+Proof. split; [exact assortative_layout_not_transposed|exact assortative_layout_transposed_when_degenerate]. Qed.
+Print Assumptions C18_assortative_layout_not_transposed.
 
 (* non-vacuity *)
 Example C18_ex : idx 2 3 2 1 2 1 = 11 /\ unidx 2 3 2 11 = (1, 2, 1) /\ 11 < 2 * 3 * 2.
